@@ -63,7 +63,6 @@ func (j *journal) begin(id string) { j.line("BEGIN " + id) }
 func (j *journal) end(id string)   { j.line("END " + id) }
 func (j *journal) done(b string)   { j.line("DONE " + b) }
 
-
 // openJournalReadOnly reports whether the journal shows a case that began and never ended.
 func openJournalReadOnly(path string) bool {
 	f, err := os.Open(path)
